@@ -58,15 +58,17 @@ class IdleHandshakeHandler(Elaboratable):
         # Capture the previous data word; so we have a record of eight consecutive signals.
         last_word = Signal.like(data_word)
         last_ctrl = Signal.like(ctrl_word)
+        last_valid = Signal()
         m.d.ss += [
             last_word.eq(data_word),
             last_ctrl.eq(ctrl_word),
+            last_valid.eq(self.sink.valid),
         ]
 
         # Logical idle descrambles to the raw data value zero; so we only need to validate that
         # the last and current words are both zeroes.
-        last_word_was_idle   = (last_word == 0) & (last_ctrl == 0)
-        current_word_is_idle = (data_word == 0) & (ctrl_word == 0)
+        last_word_was_idle   = (last_word == 0) & (last_ctrl == 0) & last_valid
+        current_word_is_idle = (data_word == 0) & (ctrl_word == 0) & self.sink.valid
         m.d.comb += [
             self.idle_detected  .eq(last_word_was_idle & current_word_is_idle)
         ]
